@@ -112,8 +112,21 @@ type reqState struct {
 	seen      []seen
 	atTransp  http.Header
 	runaway   bool
-	guardHits int // invocations of the second instance's guard interceptor
+	guardHits int   // invocations of the second instance's guard interceptor
+	returned  error // the very error value the failing interceptor returned
 }
+
+// refusal is the failing interceptors' own error type (every second failure uses it): what reaches the
+// caller is the interceptor's error - its type and fields - not merely the cause it wraps
+type refusal struct {
+	Interceptor, Position int
+	cause                 error
+}
+
+func (r *refusal) Error() string {
+	return fmt.Sprintf("interceptor %d at position %d refused: %v", r.Interceptor, r.Position, r.cause)
+}
+func (r *refusal) Unwrap() error { return r.cause }
 
 type machine struct {
 	sh     *network.SimpleHTTPDef
@@ -187,7 +200,12 @@ func newMachine(initial []int) *machine {
 			st.seen = append(st.seen, seen{me, req.Method, req.URL.String()})
 			req.Header.Add("X-I"+strconv.Itoa(id), strconv.Itoa(st.n))
 			if st.n-1 == st.failAt {
-				return fmt.Errorf("interceptor %d at position %d: %w", id, st.n-1, errTagged)
+				if (id+st.n)%2 == 0 {
+					st.returned = &refusal{Interceptor: id, Position: st.n - 1, cause: errTagged}
+				} else {
+					st.returned = fmt.Errorf("interceptor %d at position %d: %w", id, st.n-1, errTagged)
+				}
+				return st.returned
 			}
 			return nil
 		})
@@ -469,6 +487,11 @@ func (m *machine) request(o op, suffix string) (res result) {
 		}
 		if !errors.Is(err, errTagged) {
 			res.fail(key("error-not-surfaced"), "%v: interceptor at position %d failed but the caller got Err=%v", o, o.FailAt, err)
+			return
+		}
+		var asRefusal *refusal
+		if wantRefusal, _ := st.returned.(*refusal); !errors.Is(err, st.returned) || (wantRefusal != nil && (!errors.As(err, &asRefusal) || asRefusal != wantRefusal)) {
+			res.fail(key("error-not-surfaced"), "%v: the interceptor at position %d returned the error %#v (%v); the caller's Err=%#v does not contain it (errors.Is/As): only something it wraps came back", o, o.FailAt, st.returned, st.returned, err)
 			return
 		}
 	} else {
